@@ -10,7 +10,7 @@ import pp_common as pp
 REQ = ("From Coq Require Import List NArith.\nFrom Delb.Base Require Import PyStr.\n"
        "From Delb.Tree Require Import ATree Encode.\nFrom Delb.Ws Require Import Reduce Pretty SimplePP.\n")
 
-GRID = [(i, a) for i in pp.INDENTS for a in (False, True)]
+GRID = [(i, a) for i in pp.INDENTS0 for a in (False, True)]
 
 
 def cgrid(g):
@@ -199,7 +199,7 @@ def run(ctx, args):
         rule="documents: fixed small cases + chains of 9-13 nested elements (root and sub-trees at every depth) + random conventionally laid out (data-style) documents of depth <= 3 with "
              "elements, comments, PIs, 0-3 attributes, xml:space directives, optional prologue/epilogue, + random "
              "mixed-content documents; parsed with reduce_whitespace; serialized from the root, from sampled sub-trees "
-             "and as a document with indentation in {'', ' ', '  ', '\\t', ' \\t'} x align_attributes in {F, T}, width 0 (quick tier: 4 of the 10 option sets per tree, drawn at random). "
+             "and as a document with indentation in {'', ' ', '  ', '\\t', ' \\t', '\\n', ' \\n', '\\n '} x align_attributes in {F, T}, width 0 (quick tier: 4 of the 16 option sets per tree, drawn at random). "
              "One evaluation = one (tree, options) output compared byte for byte with the model; the property demand "
              "(output = simple_pp) applies to data-style reduced trees with a non-empty indentation. "
              "Non-trivial = such a tree of depth >= 1; distinct by (tree, options).")
